@@ -59,5 +59,8 @@ def gen(rng, tier):
             ops.append((3, j))
         yield tab.line(ops)
 
+    for l in stale_state_histories(rng, 300 if big else 40):
+        yield l
+
 def nontrivial(c):
     return True
